@@ -249,17 +249,25 @@ def build_and_audit(prop: str, extra_targets=()) -> BuildResult:
                 adir = LEAN / ".audit"
                 adir.mkdir(exist_ok=True)
                 af = adir / f"{prop}.lean"
+                spaces = []
+                for pf in sorted((LEAN / "MokapotVerif" / "Props").glob(f"{prop}*.lean")):
+                    for ns in re.findall(r"^namespace\s+(\S+)", strip_comments(pf.read_text()), re.M):
+                        if ns not in spaces:
+                            spaces.append(ns)
                 af.write_text(
-                    f"import MokapotVerif.Props.{prop}\nopen Mk\n"
+                    f"import MokapotVerif.Props.{prop}\n"
+                    + "".join(f"open {ns}\n" for ns in (spaces or ["Mk"]))
                     + "".join(f"#print axioms {n}\n" for n in names)
                 )
                 ra = subprocess.run(["lake", "env", "lean", str(af)], cwd=LEAN, capture_output=True, text=True)
                 out = ra.stdout + ra.stderr
                 cached = {}
                 for m in re.finditer(
-                    r"'(?:Mk\.)?(\w+)' (?:depends on axioms: \[([^\]]*)\]|does not depend on any axioms)", out
+                    r"'([\w.]+)' (?:depends on axioms: \[([^\]]*)\]|does not depend on any axioms)", out
                 ):
-                    cached[m.group(1)] = [a.strip() for a in (m.group(2) or "").split(",") if a.strip()]
+                    cached[m.group(1).split(".")[-1]] = [
+                        a.strip() for a in (m.group(2) or "").split(",") if a.strip()
+                    ]
                 if ra.returncode != 0:
                     res.log += out[-3000:]
                 cache.write_text(json.dumps({"key": key.hexdigest(), "theorems": cached}))
